@@ -1,7 +1,7 @@
 """Engine ``algebra``: C20 declaration algebra laws (DESIGN 3.20)."""
 from zope.interface import (
-    Interface, alsoProvides, directlyProvidedBy, directlyProvides, implementedBy,
-    implementer, noLongerProvides,
+    Interface, alsoProvides, classImplements, classImplementsFirst, classImplementsOnly,
+    directlyProvidedBy, directlyProvides, implementedBy, implementer, noLongerProvides,
 )
 from zope.interface.declarations import Declaration
 from zope.interface.interface import InterfaceClass
@@ -87,6 +87,38 @@ def run_case(ctx, rng, job):
         ctx.ev()
         if not (len(got) == len(cls_expected[c]) and all(a is b for a, b in zip(got, cls_expected[c]))):
             ctx.violation('class-spec-iteration', {'cls': c.__name__, 'got': nm(got), 'expected': nm(cls_expected[c])})
+        # further declarations on the same class, one after the other (before any subclass exists): what was declared
+        # keeps its place, a new interface goes in front when it extends something declared already (so does everything
+        # given to classImplementsFirst), behind otherwise; what is implied already is left out; the *only* form
+        # starts over and cuts the inherited part off
+        declared = list(kept)
+        only = False
+        for _step in range(rng.choice([0, 0, 1, 2, 3])):
+            how = rng.choice(['classImplements', 'classImplements', 'classImplementsFirst', 'classImplementsOnly'])
+            new = dedup(rng.sample(ifs, rng.randint(1, min(3, len(ifs)))))
+            cur = dedup(declared + ([] if only else inherited))
+
+            def implied(x):
+                return any(ext(y, x) for y in cur)
+            if how == 'classImplementsOnly':
+                classImplementsOnly(c, *new)
+                declared, only = list(new), True
+            elif how == 'classImplementsFirst':
+                classImplementsFirst(c, new[0])
+                new = new[:1]
+                declared = dedup([x for x in new if not implied(x)] + declared)
+            else:
+                classImplements(c, *new)
+                front = [x for x in new if any(x is not d and ext(x, d) for d in declared)]
+                back = [x for x in new if not any(x is y for y in front)]
+                declared = dedup([x for x in front if not implied(x)] + declared + [x for x in back if not implied(x)])
+            cls_expected[c] = dedup(declared + ([] if only else inherited))
+            got = list(implementedBy(c))
+            ctx.ev()
+            ctx.count('class_spec_lists_after_further_declarations[%s]' % how)
+            if not (len(got) == len(cls_expected[c]) and all(a is b for a, b in zip(got, cls_expected[c]))):
+                ctx.violation('class-spec-iteration', {'cls': c.__name__, 'after': how, 'declared_now': nm(new),
+                                                       'got': nm(got), 'expected': nm(cls_expected[c])})
     decls = []
     for d in range(rng.randint(4, 9 if big else 7)):
         items = [rng.choice(ifs) for _ in range(rng.randint(0, 5))]
